@@ -23,7 +23,7 @@ pub fn prop() -> Prop {
 }
 
 fn describe(ctx: &Ctx) {
-    ctx.rule("sources: every readable file of /repo/tests/test_files (x generated single-cell edits) and generated workbooks (cells of all kinds, formulas); chain orig -> L0 -> save -> L1 -> save -> L2 -> save -> L3 in memory; oracles: (i) dump(L1)==dump(L2)==dump(L3) on the full public-getter dump, (ii) dump(L0)==dump(L1) on the same dump, (iii) a single-cell edit changes exactly that cell (plus the row/column entry the API creates for a new cell), (iv) saving the same workbook twice gives the same part names and the same reloaded content. Non-trivial = source has a formula, hyperlink, non-default style, or text needing XML escaping; distinct by (source, edit)");
+    ctx.rule("sources: every readable file of /repo/tests/test_files (x generated single-cell edits) and generated workbooks (cells of all kinds, formulas); chain orig -> L0 -> save -> L1 -> save -> L2 -> save -> L3 in memory; oracles: (i) dump(L1)==dump(L2)==dump(L3) on the full public-getter dump, (ii) dump(L0)==dump(L1) on the same dump, (iii) a single-cell edit changes exactly that cell (plus the row/column entry the API creates for a new cell), (iv) saving the same workbook twice gives the same part names and the same reloaded content, (v) Python leg: an independent decoder accepts gen1..gen3 as valid packages, decodes the original and gen1 to the same cells (kind, value, formula, style RESOLVED through cellXfs), merges, hyperlinks, defined names, comments, validation / conditional-format ranges and sheet list, and decodes gen1, gen2, gen3 identically (incl. styles.xml and shared-string table sizes). Non-trivial = source has a formula, hyperlink, non-default style, or text needing XML escaping; distinct by (source, edit)");
     ctx.assume("dump = Debug rendering of what public getters return, keyed by sheet/cell/row/column/part; cells that show nothing (no value, no formula, default style, no hyperlink) are dropped (declared normalisation)");
     ctx.assume("the style table (xf numbering), shared-string indexes and relationship ids are not part of the dump: renumbering is a declared normalisation");
 }
@@ -179,6 +179,18 @@ fn corpus_strategy(t: Tier) -> BoxedStrategy<Case> {
         .boxed()
 }
 
+/// The Python leg runs on every generated chain and on every corpus file once (standard
+/// writer, no edit); in the quick tier the files whose decode takes seconds are left out.
+fn python_leg_applies(case: &Case) -> bool {
+    match &case.source {
+        Source::Generated(_) | Source::Styled(_) | Source::Annot(_) => true,
+        Source::Corpus(name) => {
+            let quick = std::env::var("VERIF_TIER").map(|t| t != "thorough").unwrap_or(true);
+            case.edit.is_none() && !case.light && !(quick && (HEAVY.contains(&name.as_str()) || name == "issue_194_2.xlsx"))
+        }
+    }
+}
+
 fn g<R>(what: &str, f: impl FnOnce() -> Result<R, String>) -> Result<R, Verdict> {
     match guard(f) {
         Ok(Ok(r)) => Ok(r),
@@ -283,6 +295,7 @@ fn sem_diff(a: &BookDump, b: &BookDump, foreign: bool, obs: &mut Obs) -> Option<
 
 pub fn check_case(case: &Case, obs: &mut Obs) -> Verdict {
     let light = case.light;
+    let mut orig_bytes: Option<Vec<u8>> = None;
     let l0 = match &case.source {
         Source::Corpus(name) => {
             obs.class(format!("corpus:{}", name));
@@ -290,6 +303,7 @@ pub fn check_case(case: &Case, obs: &mut Obs) -> Verdict {
                 Ok(b) => b,
                 Err(e) => return Verdict::Discard(format!("cannot read corpus file {}: {}", name, e)),
             };
+            orig_bytes = Some(bytes.clone());
             match g("load-orig", || load(&bytes)) {
                 Ok(b) => b,
                 // an unreadable corpus file is outside "readable xlsx file"
@@ -389,6 +403,15 @@ pub fn check_case(case: &Case, obs: &mut Obs) -> Verdict {
             }
         }
         (Err(e), _) | (_, Err(e)) => return Verdict::fail(format!("{}/zip-unreadable", src), e),
+    }
+    // Python leg: an independent decoder on the bytes of the chain (validity of gen1..3,
+    // orig ~ gen1 incl. resolved styles, gen1 == gen2 == gen3 exactly, table sizes stable)
+    if python_leg_applies(case) {
+        obs.class("python-leg");
+        let big = d0.sheets.iter().map(|s| s.cells.len()).sum::<usize>() > crate::props::pyleg::BIG_CELLS;
+        if let Err(d) = crate::props::pyleg::c04_leg(src, orig_bytes.as_deref(), &b1, &b2, &b3, big) {
+            return Verdict::fail(d.key, d.detail);
+        }
     }
     // (iv) saving the same unchanged workbook twice
     let b1b = match g("save1-again", || save(&l0, light)) {
